@@ -15,7 +15,7 @@ Eval(X) ==
         mono == Map(X, LAMBDA a : RInt(a * a * a - 7))            \* strictly increasing on 1..n
         neg  == Map(X, LAMBDA a : RInt(-a))
         scl  == Map(X, LAMBDA a : RDiv(RInt(3 * a), "2"))
-    IN  /\ ScoreAlgo(x) = Score(x)
+    IN  /\ ScoreAlgo(x) = Score(x) /\ ScoreAlgoLoop(x) = Score(x)
         /\ V18Algo(x) = V18(x)
         /\ SenSlopeSorted(x) = SenSlope(x)
         /\ TauFast(x) = TauA(x) /\ ZSqFast(x) = ZSq(x) /\ ZSignFast(x) = ZSign(x)
